@@ -1,26 +1,55 @@
 /-
-  Parsed debugger commands (`Command`, `Location`, `MemoryLocation`, `Label` of
-  `src/debugger/command/mod.rs`).
+  Types of the debugger command language (`src/debugger/command/mod.rs`): the parsed command
+  and the outcome classes of the parser.  Import-free apart from the basic vocabulary, so the
+  compiled driver can link it and the debugger model can consume it.
 -/
 import Lace.Basic.Machine
-namespace Lace
+namespace Lace.Cmd
 
+/-- `MemoryLocation<'a>`: `PCOffset(i16)`, `Address(u16)`, `Label(Label { name, offset: i16 })`.
+`off` is always within the `i16` range (theorem `Lace.C14.parse_offsets_in_range`). -/
 inductive MemLoc where
-  | pcOffset (off : Int)                       -- `i16`
+  | pcOffset (off : Int)
   | address (a : Word)
-  | label (name : List Char) (off : Int)       -- `i16` offset
-  deriving Repr, DecidableEq
+  | label (name : List Char) (off : Int)
+  deriving DecidableEq, Repr, Inhabited
 
+/-- `Location<'a>`: a register or a memory location. -/
 inductive Loc where
   | reg (r : BitVec 3)
   | mem (l : MemLoc)
-  deriving Repr, DecidableEq
+  deriving DecidableEq, Repr, Inhabited
 
+/-- `Command<'a>` -/
 inductive Command where
   | help | stepOver | stepInto (count : Word) | stepOut | continue_ | registers
   | print (l : Loc) | move (l : Loc) (v : Word) | goto (l : MemLoc) | assembly (l : MemLoc)
   | eval (instr : List Char) | echo (s : List Char) | reset | quit | exit
   | breakList | breakAdd (l : MemLoc) | breakRemove (l : MemLoc)
-  deriving Repr, DecidableEq
+  deriving DecidableEq, Repr, Inhabited
 
-end Lace
+/-- `CommandName` (`pub(super) enum` in `command/mod.rs`). -/
+inductive CommandName where
+  | help | stepOver | stepInto | stepOut | continue_ | registers | print | move | goto
+  | assembly | eval | echo | reset | quit | exit | breakList | breakAdd | breakRemove
+  deriving DecidableEq, Repr, Inhabited
+
+/-- `Result<Option<α>, error::Value>` plus the panic outcome of the dev profile.
+`none` = "not a value of this type (try the next type)", `err` = "malformed token". -/
+inductive PR (α : Type) where
+  | ok (a : α)
+  | none
+  | err
+  | panic (site : String)
+  deriving DecidableEq, Repr
+
+/-- Outcome of `Command::try_from(line)`: a command, an error report (`Err(error::Command)`,
+the wording is not modelled), `std::process::exit(code)` (the `sudo` easter egg), or a panic. -/
+inductive ParseOutcome where
+  | ok (c : Command)
+  | err
+  | exit (code : Nat)
+  | panic (site : String)
+  deriving DecidableEq, Repr, Inhabited
+
+end Lace.Cmd
